@@ -9,8 +9,8 @@ import "errors"
 // KEEPALIVE reply, OnOpenMessage, close — is in c02_fsm.go.)
 
 type c02cap struct {
-	code     uint8
-	off, n   int // offset/length of the value inside the body
+	code   uint8
+	off, n int // offset/length of the value inside the body
 }
 
 type c02info struct {
